@@ -735,7 +735,7 @@ impl ParserListener for Screen {
     fn insert_characters(&mut self, count: Option<u32>) {
         self.dirty.insert(self.cursor.y);
 
-        let count = count.unwrap_or(1);
+        let count = count.map(|a| if a > 0 { a } else { 1 }).unwrap_or(1);
         let default = self.default_char();
 
         let line = self
